@@ -262,7 +262,7 @@ def _gc(d, keep):
 
 # ----------------------------------------------------------------------------- correspondence
 
-ABORTS = ("assert", "unimpl", "oob")
+ABORTS = ("assert", "unimpl", "oob", "hang")
 RESYNC_OPS = ("set", "new", "reset", "init", "gen")
 SKIP_MODEL = ("unmodelled", "mmio")
 
